@@ -132,6 +132,14 @@ def check_occluders(ctx, R="C17.occluders"):
     fn = model.func(VI, "canSee")
     loops = [n for n in walk_local(fn) if isinstance(n, ast.For) and unparse(n.iter) in ("occludingObjects", "list(occludingObjects)") and not any("render_scene" in unparse(s) for s in n.body[:1])]
     ctx.floor(R, len(loops), 2, "occlusion loops in canSee")
+    # roles (never names): the map ray -> distance at which the target is hit, the candidate-ray set seeded from its keys,
+    # and the distance of a point target
+    tmaps = {unparse(v.args[0].func.value) for n in walk_local(fn) if isinstance(n, ast.Assign) for v in [n.value] if isinstance(v, ast.Call) and dotted(v.func) == "set" and v.args and isinstance(v.args[0], ast.Call) and isinstance(v.args[0].func, ast.Attribute) and v.args[0].func.attr == "keys"}
+    cand = set(lib.locals_assigned(fn, lambda v: isinstance(v, ast.Call) and dotted(v.func) == "set" and v.args and isinstance(v.args[0], ast.Call) and isinstance(v.args[0].func, ast.Attribute) and v.args[0].func.attr == "keys"))
+    posp = fn.args.args[0].arg
+    tdist = set(lib.locals_assigned(fn, lambda v: isinstance(v, ast.Call) and unparse(v.func) == f"{posp}.distanceTo" and len(v.args) == 1 and isinstance(v.args[0], ast.Name)))
+    if not tmaps or not cand or not tdist:
+        raise AnalysisError("shape not recognised: target distance map / candidate rays / target distance of canSee")
     for lp in loops:
         bad = False
         for n in ast.walk(lp):
@@ -139,24 +147,28 @@ def check_occluders(ctx, R="C17.occluders"):
                 if not (isinstance(n.value, ast.Constant) and n.value.value is False):
                     bad = True
                     ctx.finding(R, n, f"return {unparse(n.value) if n.value else None} inside occluder loop", f"canSee: `{unparse(n)}` inside the loop over occluding objects: an occluder can make the target visible")
-            if isinstance(n, ast.Assign) and any(unparse(t) == "candidate_rays" for t in n.targets):
+            if isinstance(n, ast.Assign) and any(unparse(t) in cand for t in n.targets):
                 v = n.value
-                ok = isinstance(v, ast.BinOp) and isinstance(v.op, (ast.Sub, ast.BitAnd)) and unparse(v.left) == "candidate_rays"
+                ok = isinstance(v, ast.BinOp) and isinstance(v.op, (ast.Sub, ast.BitAnd)) and unparse(v.left) in cand
                 if not ok:
                     bad = True
-                    ctx.finding(R, n, f"candidate set update {norm_text(n, 50)}", f"canSee: `{unparse(n)}` inside the occluder loop is not a set difference/intersection of candidate_rays: occluders could add rays")
-            if isinstance(n, ast.Call) and isinstance(n.func, ast.Attribute) and unparse(n.func.value) == "candidate_rays" and n.func.attr in ("add", "update", "union"):
+                    ctx.finding(R, n, f"candidate set update {norm_text(n, 50)}", f"canSee: `{unparse(n)}` inside the occluder loop is not a set difference/intersection of the candidate rays: occluders could add rays")
+            if isinstance(n, ast.Call) and isinstance(n.func, ast.Attribute) and unparse(n.func.value) in cand and n.func.attr in ("add", "update", "union"):
                 bad = True
                 ctx.finding(R, n, "candidate set grows", f"canSee: `{unparse(n)}` adds candidate rays inside the occluder loop")
         if not bad:
             ctx.ok(R, lp, "occluder loop only removes rays / returns False")
     # comparison direction: a ray is occluded if the occluder is hit no farther than the target
-    cmps = [n for lp in loops for n in ast.walk(lp) if isinstance(n, ast.Compare) and len(n.ops) == 1 and unparse(n.left) in ("hit_dist", "occ_distance") and unparse(n.comparators[0]) in ("target_dist_map[hit_ray]", "target_distance")]
+    def _is_target(e):
+        return (isinstance(e, ast.Subscript) and unparse(e.value) in tmaps) or (isinstance(e, ast.Name) and e.id in tdist)
+
+    cmps = [n for lp in loops for n in ast.walk(lp) if isinstance(n, ast.Compare) and len(n.ops) == 1 and isinstance(n.ops[0], (ast.Lt, ast.LtE, ast.Gt, ast.GtE)) and (_is_target(n.left) != _is_target(n.comparators[0]))]
     for c in cmps:
-        if isinstance(c.ops[0], (ast.LtE, ast.Lt)):
+        small, big = (c.left, c.comparators[0]) if isinstance(c.ops[0], (ast.LtE, ast.Lt)) else (c.comparators[0], c.left)
+        if _is_target(big):
             ctx.ok(R, c, f"`{unparse(c)}`: a ray is occluded when the occluder is hit before (or at) the target")
         else:
-            ctx.finding(R, c, f"occlusion comparison {unparse(c)}", f"canSee: `{unparse(c)}`: a ray must count as occluded when the occluder is hit at a distance <= the target's")
+            ctx.finding(R, c, f"occlusion comparison {lib.ctext(c)}", f"canSee: `{unparse(c)}`: a ray must count as occluded when the occluder is hit at a distance <= the target's")
     ctx.floor(R, len(cmps), 2, "occlusion distance comparisons")
     pre = [n for n in walk_local(fn) if isinstance(n, ast.Assign) and unparse(n.targets[0]) == "occludingObjects" and isinstance(n.value, ast.ListComp)]
     if pre and [unparse(t) for t in pre[0].value.generators[0].ifs] == ["position.distanceTo(obj) <= visibleDistance"]:
@@ -165,15 +177,17 @@ def check_occluders(ctx, R="C17.occluders"):
         ctx.finding(R, pre[0], "occluder pre-filter", f"canSee pre-filters occluders with {[unparse(t) for t in pre[0].value.generators[0].ifs]}: an occluder within the visible distance may be dropped")
     # view-volume exits
     rets = [r for r in walk_local(fn) if isinstance(r, ast.Return) and isinstance(r.value, ast.Constant) and r.value.value is False]
-    dist = [r for r in rets if any("> visibleDistance" in unparse(t) and p for t, p in lib.guard_tests(r, fn))]
+    dist = [r for r in rets if any(p and (lib.cmp_parts(t) or ("", None, ""))[0] == "visibleDistance" and (lib.cmp_parts(t) or ("", None, ""))[1] is ast.Lt for t, p in lib.guard_tests(r, fn))]
     if len(dist) >= 2:
         ctx.ok(R, dist[0], "targets farther than visibleDistance are not visible (object and point branches)")
     else:
         ctx.finding(R, fn, "visible distance exits", "canSee no longer returns False for targets beyond visibleDistance in both branches")
-    cone = [r for r in rets if any("viewAngles[0] / 2" in unparse(t) and "azimuth" in unparse(t) for t, p in lib.guard_tests(r, fn))]
-    if cone:
+    az = lib.locals_assigned(fn, lambda v: "arctan2" in unparse(v))
+    al = lib.locals_assigned(fn, lambda v: "arcsin" in unparse(v))
+    cone = [r for r in rets if any("viewAngles[0] / 2" in unparse(t) and any(a in lib.names_loaded(t) for a in az) for t, p in lib.guard_tests(r, fn))]
+    if cone and len(az) == 1 and len(al) == 1:
         t = unparse([t for t, p in lib.guard_tests(cone[0], fn)][0])
-        if "not -viewAngles[0] / 2 <= azimuth <= viewAngles[0] / 2" in t and "not -viewAngles[1] / 2 <= altitude <= viewAngles[1] / 2" in t:
+        if f"not -viewAngles[0] / 2 <= {az[0]} <= viewAngles[0] / 2" in t and f"not -viewAngles[1] / 2 <= {al[0]} <= viewAngles[1] / 2" in t:
             ctx.ok(R, cone[0], "a point outside the horizontal or vertical view angle is not visible")
         else:
             ctx.finding(R, cone[0], "view cone test", f"canSee's point branch tests `{t}`; both |azimuth| <= viewAngles[0]/2 and |altitude| <= viewAngles[1]/2 are required")
@@ -271,8 +285,14 @@ def check_plumbing(ctx, R="C17.plumbing"):
         ctx.finding(R, helper, "CanSee occluders", "veneer.CanSee no longer passes exactly the occluding objects other than viewer and target")
     vr = model.cls(RQ, "VisibilityRequirement")
     init, fb = vr.methods["__init__"], vr.methods["falsifiedByInner"]
-    t1, t2 = unparse(init), unparse(fb)
-    if "obj is not self.source and obj is not self.target" in t1 and "for obj in objects" in t1 and "if obj.occluding" in t2 and "source.canSee(target, occludingObjects=occluders)" in t2:
+    objp = init.args.args[3].arg if len(init.args.args) >= 4 else "objects"
+    samp = fb.args.args[1].arg
+    po = [n.value for n in walk_local(init) if isinstance(n, ast.Assign) and unparse(n.targets[0]) == "self.potential_occluders"]
+    rets = [r for r in lib.returns_of(fb) if r.value is not None]
+    want_init = lib.role_text(None, f"tuple(obj for obj in {objp} if obj is not self.source and obj is not self.target)")
+    want_init2 = lib.role_text(None, f"tuple(obj for obj in {objp} if obj is not self.target and obj is not self.source)")
+    want_ret = lib.role_text(None, f"not {samp}[self.source].canSee({samp}[self.target], occludingObjects=tuple(o for o in tuple({samp}[p] for p in self.potential_occluders) if o.occluding))")
+    if len(po) == 1 and lib.role_text(init, po[0]) in (want_init, want_init2) and len(rets) == 1 and lib.role_text(fb, rets[0].value) == want_ret:
         ctx.ok(R, vr.node, "VisibilityRequirement: candidates exclude source and target; at check time only sampled `occluding` objects occlude")
     else:
         ctx.finding(R, vr.node, "VisibilityRequirement occluders", "VisibilityRequirement no longer excludes source/target from the occluders or no longer filters by the sampled `occluding`")
